@@ -1,6 +1,7 @@
 package props
 
 import (
+	"strings"
 	"fmt"
 	"reflect"
 	"testing"
@@ -320,7 +321,7 @@ func TestC18Soup(t *testing.T) {
 		c := &VerifyCase{Prop: "C18", Kind: "soup", Script: script}
 		acc, nt, err := verifyScript(script, true)
 		if err != nil {
-			if openFinding("C18-valueless-operand") && valuelessOperand(script) {
+			if openFinding("C18-valueless-operand") && underflow(err) && valuelessOperand(script) {
 				col.Excluded("known:valueless-operand (attributed by the classifier)")
 				return
 			}
@@ -335,6 +336,18 @@ func TestC18Soup(t *testing.T) {
 		}
 		col.Case(script, acc && nt, func() interface{} { return map[string]interface{}{"script": clip(script, 500), "kind": kind} })
 	})
+}
+
+// underflow: the failure is the one the open finding C18-valueless-operand
+// describes - an instruction pops a value nobody pushed. Any other defect of
+// a program (a constant that does not exist, a jump out of the body, a body
+// without a return) is reported even in a script that shows the signature.
+func underflow(err error) bool {
+	if err == nil {
+		return false
+	}
+	m := err.Error()
+	return strings.Contains(m, "operand(s) but a path reaches it with only") || strings.Contains(m, "Pop from an empty stack") || strings.Contains(m, "empty stack")
 }
 
 func containsAny(s string, subs ...string) bool {
